@@ -9,6 +9,8 @@
 (*       tail 3 = bytes whose own decode trips an operand-mode assertion          *)
 (*   ctx 4: the buffer is b truncated to n bytes                                  *)
 (*   ctx 5: the buffer is b again, decoded after an adversarial decode history    *)
+(*   ctx 6: the buffer is b[1..L] followed by one of ALL two-byte instruction     *)
+(*       heads (opcode x second byte, zero fill) - the follower campaign          *)
 (*   ia/ta/la/fa = accepted (1/0) by info/text/IL/fetch (fa = -1: not applicable),*)
 (*   il/tl/ll/fl = reported lengths, tm/fm = mnemonic strings, exc = 1 if any     *)
 (*   consumer raised instead of returning.                                        *)
@@ -31,8 +33,8 @@ RowClause(r, row) ==
      ELSE IF ia = 1 /\ ~(il >= 1 /\ il <= n) THEN "LenBounds"
      ELSE IF ia = 1 /\ ~(ta = 1 /\ la = 1 /\ tl = il /\ ll = il) THEN "ConsumersAgree"
      ELSE IF ia = 1 /\ fa # -1 /\ ~(fa = 1 /\ fl = il /\ fm = tm) THEN "ConsumersAgree"
-     ELSE IF ctx \in {1, 2, 3} /\ <<ia, il, ta, tl, tm, la, ll>> # <<b0[3], b0[4], b0[5], b0[6], b0[7], b0[8], b0[9]>> THEN "IndependentOfLaterBytes"
-     ELSE IF ctx \in {1, 2, 3} /\ fa # -1 /\ b0[10] # -1 /\ <<fa, fl, fm>> # <<b0[10], b0[11], b0[12]>> THEN "IndependentOfLaterBytes"
+     ELSE IF ctx \in {1, 2, 3, 6} /\ <<ia, il, ta, tl, tm, la, ll>> # <<b0[3], b0[4], b0[5], b0[6], b0[7], b0[8], b0[9]>> THEN "IndependentOfLaterBytes"
+     ELSE IF ctx \in {1, 2, 3, 6} /\ fa # -1 /\ b0[10] # -1 /\ <<fa, fl, fm>> # <<b0[10], b0[11], b0[12]>> THEN "IndependentOfLaterBytes"
      ELSE IF ctx = 4 /\ b0[3] = 1 /\ n >= b0[4] /\ <<ia, il, ta, tl, tm, la, ll>> # <<b0[3], b0[4], b0[5], b0[6], b0[7], b0[8], b0[9]>> THEN "IndependentOfLaterBytes"
      ELSE IF ctx = 4 /\ b0[3] = 1 /\ n < b0[4] /\ ia = 1 THEN "IndependentOfLaterBytes"
      ELSE IF ctx = 5 /\ row # [b0 EXCEPT ![1] = 5] THEN "IndependentOfHistory"
